@@ -83,6 +83,10 @@ class TlcResult:
         m = re.search(r"(\d+) states generated, (\d+) distinct states found", out)
         self.generated = int(m.group(1)) if m else 0
         self.distinct = int(m.group(2)) if m else 0
+        if not m:
+            m = re.search(r"The number of states generated: (\d+)", out)    # simulation mode
+            if m:
+                self.generated = self.distinct = int(m.group(1))
         self.cases = None
         self.violated = re.findall(r"Invariant (\S+) is violated", out) + \
             (["<temporal>"] if "Temporal properties were violated" in out else [])
@@ -172,7 +176,7 @@ def check_coverage(res, ignore=()):
         raise ToolError("vacuity guard: actions never taken in the model: " + ", ".join(zero))
 
 
-def validate_trace(trace_tla, trace_cfg, trace_path, shards=1, timeout=1800):
+def validate_trace(trace_tla, trace_cfg, trace_path, shards=1, timeout=1800, group_start=None):
     """TLC trace validation. Returns (consumed_events, verdict tuples [(line, kind, what)])."""
     with open(trace_path) as f:
         lines = f.readlines()
@@ -181,15 +185,25 @@ def validate_trace(trace_tla, trace_cfg, trace_path, shards=1, timeout=1800):
         return 0, []
     shards = max(1, min(shards, (n + 199) // 200))
     per = (n + shards - 1) // shards
+    # cut points; with group_start (a predicate on a line) a shard only starts where a group starts
+    cuts = [0]
+    for i in range(1, shards):
+        c = i * per
+        if group_start:
+            while c < n and not group_start(lines[c]):
+                c += 1
+        if cuts[-1] < c < n:
+            cuts.append(c)
+    cuts.append(n)
     parts = []
-    for i in range(shards):
-        chunk = lines[i * per:(i + 1) * per]
+    for i in range(len(cuts) - 1):
+        chunk = lines[cuts[i]:cuts[i + 1]]
         if not chunk:
             continue
         pth = f"{trace_path}.shard{i}"
         with open(pth, "w") as f:
             f.writelines(chunk)
-        parts.append((i * per, pth, len(chunk)))
+        parts.append((cuts[i], pth, len(chunk)))
 
     def one(part):
         off, pth, cnt = part
@@ -238,6 +252,7 @@ class Run:
         self.violations = []   # (what, replay_payload)
         self.deviations = {}   # id -> [payload]
         self.known = {k["deviation"]: k for k in load_known() if k["property"] == pid and k["status"] == "known"}
+        self.case_of = None    # optional: event -> the generated case it belongs to (stored in replay files)
 
     def path(self, name):
         return os.path.join(self.dir, name)
@@ -282,6 +297,8 @@ class Run:
         for what, evs in seen_what.items():
             for ev in evs[:3]:
                 payload = {"property": self.pid, "what": what, "event": ev}
+                if self.case_of:
+                    payload["case"] = self.case_of(ev)
                 h = hashlib.sha1(json.dumps(payload, sort_keys=True).encode()).hexdigest()[:10]
                 rp = os.path.join(WORK, "replay", f"{self.pid}-{h}.json")
                 json.dump(payload, open(rp, "w"), indent=1)
